@@ -48,6 +48,14 @@ def conflict_patterns():
         ("count_in_interval", [{"kind": "ScheduleNTasksInTimeIntervals", "tasks": ["t0", "t1"], "n": 2,
                                 "intervals": [[0, 3]], "mode": "exact"}]),
         ("logic", [{"kind": "Not", "arg": {"kind": "expr", "expr": [">=", ["start", "t0"], 0]}}]),
+        # conflicts that go through a NON-LAST assertion of a constraint made of several assertions
+        ("unavailable_first_interval", [{"kind": "ResourceUnavailable", "resource": "w0", "intervals": [[0, 6], [7, 8]]},
+                                        {"kind": "TaskEndBefore", "task": "t0", "value": 5, "mode": "lax"}]),
+        ("workload_first_interval", [{"kind": "WorkLoad", "resource": "w0", "map": [[0, 4, 0], [6, 8, 1]], "mode": "max"},
+                                     {"kind": "TaskEndBefore", "task": "t0", "value": 3, "mode": "lax"}]),
+        ("contiguous_vs_pins", [{"kind": "TasksContiguous", "tasks": ["t0", "t1"]},
+                                {"kind": "TaskStartAt", "task": "t0", "value": 0},
+                                {"kind": "TaskStartAt", "task": "t1", "value": 5}]),
         ("buffer_short", [{"kind": "TaskStartAt", "task": "t0", "value": 0}, {"kind": "TaskStartAt", "task": "t1", "value": 3}]),
     ]
 
@@ -69,7 +77,7 @@ NAMES = ["c", "c1", "c10", "c1_x", "c_", "cc", "c11", "C1", "c 1", "c12"]
 def make_spec(pattern, conflict, n_irr, rng, feasible=False):
     tasks = [fam.fx("t0", 2), fam.fx("t1", 3), fam.fx("t2", 1), fam.fx("t3", 2), fam.fx("o", 1, optional=True)]
     spec = fam.base(8, tasks)
-    if pattern == "worker_clash":
+    if pattern in ("worker_clash", "unavailable_first_interval", "workload_first_interval"):
         spec["workers"] = [{"name": "w0"}]
         spec["requirements"] = [{"task": "t0", "resource": "w0"}, {"task": "t1", "resource": "w0"}]
     cons = []
